@@ -59,7 +59,8 @@ def native_receivers(envr):
     out = []
     for text, fmts in (('', []), ('ab', [('31', 0, 2)]), ('abab', [('31', 0, 2), ('1', 1, 4)]),
                        (' aXb\tXa ', [('4', 1, 3), ('32', 2, 7), ('1', 0, 1)]), ('Ab ab AB', [('35', 3, 5)]),
-                       ('xabbbb', [('31', 1, 4)])):
+                       ('xabbbb', [('31', 1, 4)]), ('aaaa', [('31', 0, 1), ('1', 2, 3)]),
+                       ('l1\nl2\r\n\nl4 \t', [('32', 1, 6), ('4', 4, 9)])):
         s = A(text)
         for f, a, b in fmts:
             s.apply_formatting(f, a, b)
@@ -70,7 +71,7 @@ def native_receivers(envr):
 def native_pool(envr, kind):
     m = envr.program.modules['ansi_string'].native
     ints = [0, 1, 2, 3, -1, -2, 5, 9]
-    strs = ['', 'a', 'b', 'ab', 'ba', ' ', 'X', 'bb', '\t']
+    strs = ['', 'a', 'b', 'ab', 'ba', ' ', 'X', 'bb', '\t', 'aa']
     if kind == 'none':
         return [None]
     if kind in ('int', 'smallint'):
